@@ -170,6 +170,8 @@ type ConnFut = Pin<Box<dyn Future<Output = (Option<Link>, Option<DirectLink>, bo
 struct LinkSt {
     gen: usize, direct: bool, st: LState, q: Option<Link>, d: Option<DirectLink>, target: Option<Arc<dyn AnyDirectUpdate>>,
     got: Arc<Mutex<Vec<(u32, u32)>>>, fut: Option<ConnFut>, t_conn: Option<u64>, t_end: Option<u64>,
+    /// a clone handled a FollowSubscribe for this slot after the gate had left the slot's generation
+    resurrected: bool,
 }
 
 struct CloneSt {
@@ -312,9 +314,12 @@ impl Case {
                 let r = g.process().now_or_never();
                 let evs = take_main_events();
                 let t = self.tick;
-                for (name, _) in evs {
+                for (name, id) in evs {
                     if name.starts_with("cmd.") {
                         self.emit(format!("cp.{c}.{}", tag(name)));
+                        if name == "cmd.follow_subscribe" {
+                            if let Some(i) = id.and_then(|u| self.slot_of.get(&u).copied()) { if self.links[i].gen < self.rx { self.links[i].resurrected = true; } }
+                        }
                         if name == "cmd.follow_reconfigure" { self.clones[c - 1].reconf_seen += 1; }
                         if name == "cmd.terminate" { self.clones[c - 1].terminated = true; }
                     } else if name == "process.closed" {
@@ -357,7 +362,7 @@ impl Case {
         take_main_events();
         let r = fut.as_mut().now_or_never();
         let sent = take_main_events().iter().any(|e| e.0 == "link.connect.sent");
-        let mut ls = LinkSt { gen, direct, st: LState::Pending, q: None, d: None, target, got, fut: None, t_conn: None, t_end: None };
+        let mut ls = LinkSt { gen, direct, st: LState::Pending, q: None, d: None, target, got, fut: None, t_conn: None, t_end: None, resurrected: false };
         match r {
             Some((q, d, ok)) => { ls.q = q; ls.d = d; ls.st = LState::Refused; if ok { self.bad.push("connect-answered-at-once".into()); } }
             None => { ls.fut = Some(fut); if sent { self.cnt[gen] += 1; } else { self.bad.push("subscribe-not-sent".into()); } }
@@ -581,7 +586,9 @@ impl Case {
                 }
                 // nothing for a subscription of a generation the gate has left
                 if let Some(ge) = gen_end { if u.t_begin > ge && got.contains(&(u.p as u32, u.seq)) {
-                    fails.push(format!("delivery:old-generation-slot-served-after-reconfigure slot={i} gen={} pub={} seq={}", l.gen, u.p, u.seq));
+                    // the one way the code as written does this: a clone's stale FollowSubscribe put the slot back
+                    let sig = if l.resurrected { "delivery:old-generation-slot-served-after-reconfigure" } else { "delivery:old-generation-slot-kept-by-reconfigure" };
+                    fails.push(format!("{sig} slot={i} gen={} pub={} seq={}", l.gen, u.p, u.seq));
                 } }
             }
         }
